@@ -362,18 +362,74 @@ def gen_of(names, arg_ok=None):
     return ok
 
 
+def fn_named(obj, name):
+    """modular call-site check: `obj` is the un-run generator (or the function value) of the callee called `name`.
+    If the code no longer defines any function of that name in the callee's module the contract cannot be mapped onto it
+    (a rename): UNDECIDED (contract-mapping error), never a violation.  If the name still exists and something else is
+    called, the answer is False."""
+    import ast
+    from pyvc.api import GenObj, Unsupported
+    from pyvc import loader
+    fn = obj.fn if isinstance(obj, GenObj) else obj
+    nm = getattr(fn, 'name', None)
+    if nm is None:
+        return False
+    if nm == name:
+        return True
+    mod = getattr(fn, 'module', None)
+    rel = getattr(mod, 'relpath', None)
+    if rel is None:
+        return False
+    src, tree = loader.read_source(rel)
+    if not any(isinstance(n, ast.FunctionDef) and n.name == name for n in ast.walk(tree)):
+        raise Unsupported('CONTRACT-MAPPING no function named %r in %s any more (the call site now uses %r)' % (name, rel, nm))
+    return False
+
+
 def same_stream(it, y, r):
-    """pass-through of a resource stream: True when the yielded object IS the input ResourceWrapper.  A NEW lazy wrapper around
-    it (generator, generator expression, map) may well be equivalent, but this contract has no obligation for wrapped streams:
-    the function is then left UNDECIDED (never reported as a violation).  Anything else -- another resource, None, a list --
-    is not the same stream."""
+    """pass-through of a resource stream.
+       True      : the yielded object IS the input ResourceWrapper, or a wrapper that provably re-yields it element by element
+                   (`(x for x in r)`, a generator function whose whole body is `yield from rows` / `for x in rows: yield x`)
+       False     : another resource, None, a list, or the un-run generator of a function that does something else with the rows
+                   (e.g. the stream handed to a caster): not a pass-through
+       undecided : any other new lazy object (map, filter, a generator expression with a condition or a computed element):
+                   equivalence of wrapped streams is outside this contract -- never reported as a violation."""
+    import ast
     from pyvc.api import GenObj, Unsupported
     from pyvc import lib
     if y is r:
         return True
-    if isinstance(y, (GenObj, lib.GenExp, lib.MappedStream)):
-        raise Unsupported('pass-through stream is re-wrapped in a new lazy object (%r): equivalence of wrapped streams is outside '
-                          'this contract' % (y,))
+    if isinstance(y, lib.GenExp):
+        g = y.node.generators
+        if len(g) == 1 and not g[0].ifs and isinstance(g[0].target, ast.Name) and isinstance(y.node.elt, ast.Name) \
+                and y.node.elt.id == g[0].target.id:
+            try:
+                src = it.eval(g[0].iter, y.env)
+            except Exception:
+                src = None
+            if src is r or src is getattr(r, 'stream', None):
+                return True
+        raise Unsupported('pass-through stream is re-wrapped in a generator expression (%s): equivalence of wrapped streams '
+                          'is outside this contract' % ast.unparse(y.node)[:80])
+    if isinstance(y, GenObj):
+        fn = y.fn
+        node = getattr(fn, 'node', None)
+        body = [st for st in getattr(node, 'body', []) if not (isinstance(st, ast.Expr) and isinstance(st.value, ast.Constant))]
+        params = [a.arg for a in node.args.args] if node is not None and hasattr(node, 'args') else []
+        passed = [p for p, a in zip(params, y.args) if a is r or a is getattr(r, 'stream', None)]
+        if len(body) == 1 and passed:
+            st = body[0]
+            if isinstance(st, ast.Expr) and isinstance(st.value, ast.YieldFrom) and isinstance(st.value.value, ast.Name) \
+                    and st.value.value.id in passed:
+                return True
+            if isinstance(st, ast.For) and isinstance(st.iter, ast.Name) and st.iter.id in passed and not st.orelse \
+                    and isinstance(st.target, ast.Name) and len(st.body) == 1 and isinstance(st.body[0], ast.Expr) \
+                    and isinstance(st.body[0].value, ast.Yield) and isinstance(st.body[0].value.value, ast.Name) \
+                    and st.body[0].value.value.id == st.target.id:
+                return True
+        return False
+    if isinstance(y, lib.MappedStream):
+        raise Unsupported('pass-through stream is re-wrapped in map(): equivalence of wrapped streams is outside this contract')
     return False
 
 
